@@ -152,7 +152,9 @@ type Stores struct {
 	Cfg    Config
 	People *PeopleStore
 	Staff  *StaffStore
-	Teams  *TeamStore
+	// Interns is a second child store of People that stays empty (see New)
+	Interns *StaffStore
+	Teams   *TeamStore
 	// OnSetChange, when non-nil, receives set-index listener invocations
 	OnSetChange func(SetChange)
 }
@@ -201,6 +203,39 @@ func New(cfg Config) *Stores {
 		staff.Extended()
 	}
 	s.Staff = staff
+
+	// a second child store of people that never holds an entity, registered *before* staff: whatever walks the child stores of
+	// an entity (update hand-over, delete, events) has to get past a child store the entity does not belong to
+	interns := &StaffStore{BaseStore: boltz.NewBaseStore(boltz.StoreDefinition[*Staff]{
+		EntityStrategy: &staffStrategy{people: people},
+		BasePath:       []string{"intern"},
+		Parent:         people,
+		ParentMapper: func(e boltz.Entity) boltz.Entity {
+			if st, ok := e.(*Staff); ok {
+				return &st.Person
+			}
+			return e
+		},
+		EntityNotFoundF: func(id string) error {
+			return boltz.NewNotFoundError(people.GetSingularEntityType(), "id", id)
+		},
+	})}
+	interns.InitImpl(interns)
+	s.Interns = interns
+	people.RegisterChildStoreStrategy(&boltz.ChildStoreUpdateHandler[*Person, *Staff]{
+		Store: interns,
+		Mapper: func(ctx boltz.MutateContext, parent *Person) (*Staff, bool) {
+			if !interns.IsEntityPresent(ctx.Tx(), parent.Id) {
+				return nil, false
+			}
+			st, found, _ := interns.BaseStore.FindById(ctx.Tx(), parent.Id)
+			if !found || st == nil {
+				return nil, false
+			}
+			st.Person = *parent
+			return st, true
+		},
+	})
 
 	people.RegisterChildStoreStrategy(&boltz.ChildStoreUpdateHandler[*Person, *Staff]{
 		Store: staff,
@@ -284,6 +319,7 @@ func New(cfg Config) *Stores {
 
 	// ---- staff
 	people.GrantSymbols(staff)
+	people.GrantSymbols(interns)
 	staff.AddSymbol(FLead, ast.NodeTypeBool)
 	symGrade := staff.AddSymbol(FGrade, ast.NodeTypeString)
 	staff.IdxGrade = staff.AddUniqueIndex(symGrade)
